@@ -4,6 +4,8 @@ CONSTANTS
   Objs = {1}
   MaxOps = 3
   MaxOwn = 2
-  Atomic = TRUE
+  InitOwn = 1
+  CreatorRefs = 1
+  IncMode = "atomic"
 INVARIANTS TypeOK Conservation SingleDestruction NotWhileReferenced DestroyedWhenUnreferenced NoUseAfterFree
 CHECK_DEADLOCK FALSE
